@@ -297,6 +297,16 @@ Proof.
   rewrite Hone. lia.
 Qed.
 
+(* the counter checker is exact on single effects: what it rejects miscounts some batch *)
+Lemma counter_single_complete (e : ceff) : counter_ok [e] = false ->
+  exists nchunks len c, counter_run nchunks len [e] c <> c + len.
+Proof.
+  destruct e; cbn; intros H; try discriminate.
+  - exists 2, 5, 0. cbn. lia.
+  - exists 2, 5, 0. cbn. lia.
+  - exists 2, 5, 0. cbn. lia.
+Qed.
+
 Lemma counter_today_ok : counter_ok counter_today = true.
 Proof. vm_compute. reflexivity. Qed.
 
